@@ -568,6 +568,20 @@ func parseMultiPartHeader(multiPartHeader string) (header string, optional map[s
 func parseEMLAttachmentEmbed(contentDisposition []string, multiPart *multipart.Part, msg *Msg) error {
 	cdType, optional := parseMultiPartHeader(contentDisposition[0])
 	filename := "generic.attachment"
+
+	// Prefer a real media type parser for the disposition parameters. It handles quoted strings that
+	// contain separators like ";" or "=" as well as RFC 2231 parameters. File names are usually RFC 2047
+	// encoded (that is also what the message writer does), so decode them as well.
+	if mediaType, params, err := mime.ParseMediaType(contentDisposition[0]); err == nil {
+		cdType = mediaType
+		delete(optional, "filename")
+		if name := params["filename"]; name != "" {
+			filename = name
+			if decoded, derr := new(mime.WordDecoder).DecodeHeader(name); derr == nil && decoded != "" {
+				filename = decoded
+			}
+		}
+	}
 	if name, ok := optional["filename"]; ok {
 		// The filename can be given as quoted-string or as plain token. Only strip the quotes
 		// if there are any, and keep the default name if nothing is left.
